@@ -2,7 +2,7 @@ SPECIFICATION Spec
 CONSTANTS
   RayGrid = 2
   PolyGrid = 3
-  MaxPolyV = 5
+  MaxPolyV = 4
   HullGrid = 3
   MaxHullN = 5
 INVARIANT T_Ray
